@@ -835,7 +835,11 @@ def install(prog):
                     for b in bs:
                         acc = acc * 10 + z3.ZeroExt(56, to_bv(b, 8) - 0x30)
                     return ok(acc)
-            raise Unsupported('parse of symbolic string')
+            nsym = sum(1 for b in bs if is_sym(b))
+            if nsym > 3:
+                raise Unsupported('parse of symbolic string')
+            # few symbolic bytes (already classified by the caller's path condition): fork over their feasible values
+            v = bytes(ctx.concretize_int(b, list(range(0, 256))) if is_sym(b) else b for b in bs).decode('latin-1')
         try:
             if t == 'f64':
                 if not re.fullmatch(r'[+-]?(\d+\.?\d*([eE][+-]?\d+)?|\.\d+([eE][+-]?\d+)?|inf|infinity|nan)', v, re.I):
